@@ -10,7 +10,15 @@ sys.path.insert(0, REPO)
 
 
 def main():
-    src, outdir, top, boost, ign = sys.argv[1:6]
+    if sys.argv[1] == '--sequence':
+        # several runs in THIS process, one result line per run
+        for i, r in enumerate(json.load(open(sys.argv[2]))):
+            one(r['src'], r['outdir'], r['top'], r['boost'], r['ign'])
+        return
+    one(*sys.argv[1:6])
+
+
+def one(src, outdir, top, boost, ign):
     text = open(src).read()
     top = top.split('::') if top else ['']
     if top[0]:
